@@ -485,6 +485,7 @@ def run(ck, F):
         from rules import c04 as C04
         sub = C04._Sub(ck, "R2", lambda key: True, only_rules=("R1",))
         C11.run(sub, F)
+    rule_copy_fanout(ck, F)
     # ---- R4 loops
     n_loops = 0
     for b in scans.bodies(F.lib):
@@ -525,6 +526,72 @@ def run(ck, F):
         ck.ok("R4", "endless-iterator:positive-control", "engine/controls/src/lib.rs", f"controls: {sorted(cverd.items())}")
     else:
         ck.undecided("R4", "endless-iterator:positive-control", "engine/controls/src/lib.rs", f"the scan for endless iterators reports {sorted(cverd.items())} on the controls")
+
+
+def rule_copy_fanout(ck, F):
+    """A component that is referred to is copied into the referring one by value (the base type's members into the derived type).
+    One copy per component keeps the work linear in the depth of the chain. A copy made *per child* — from a loop over the children,
+    into the list that loop fills — multiplies: k levels of components that each refer to two others are 2^k members (a 4 KB schema
+    exhausts the memory). Decided structurally: no function that copies the members of a looked-up component into a member list it
+    was handed is called from inside a loop."""
+    from rules import anchors as A
+    from engine.rulekit import hir as Hh
+    lookups = {p_ for p_, _i, _j in A.component_lookups(F)}
+    copiers = {}
+    for f in A._fn_items(F):
+        ins = [A._norm_ty(x) for x in f["inputs"]]
+        holders = tuple("&mut" + A._norm_ty(h_) for h_ in (A.field_list_holders(F) or {}))
+        if not (any(x.startswith("&mutstd::vec::Vec<model::field::Field>") or (holders and x.startswith(holders)) for x in ins)
+                or "std::vec::Vec<model::field::Field>" in A._norm_ty(f["output"])):
+            continue
+        b = F.lib.body(f["path"])
+        if b is None or b.get("hir") is None or "tests::" in f["path"]:
+            continue
+        nb = Hh.norm_body(b)
+        looks = any(x.get("k") in ("Call", "MethodCall") and (Hh.callee_path(x) or "") in lookups for x in Hh.exprs(nb["value"]))
+        copies = False
+        for x in Hh.exprs(nb["value"]):
+            if x.get("k") == "For" and ".fields" in Hh.describe(x["iter"]):
+                copies = True
+            if x.get("k") == "MethodCall" and x["name"] in ("extend", "extend_from_slice", "clone_from", "append") and any(".fields" in Hh.describe(a) for a in x["args"]):
+                copies = True
+        if looks and copies:
+            copiers[f["path"]] = b
+    n = 0
+    for b in F.lib.bodies:
+        if b.get("hir") is None or b.get("closure") or "tests::" in b["path"]:
+            continue
+        nb = Hh.norm_body(b)
+        short = b["path"].rsplit("::", 1)[-1]
+
+        def visit(e, loops):
+            nonlocal n
+            if isinstance(e, list):
+                for x in e:
+                    visit(x, loops)
+                return
+            if not isinstance(e, dict):
+                return
+            k = e.get("k")
+            if k in ("Call", "MethodCall") and (Hh.callee_path(e) or "") in copiers:
+                n += 1
+                cshort = (Hh.callee_path(e) or "").rsplit("::", 1)[-1]
+                if loops:
+                    ck.violation("R2", f"copy-fanout:{short}->{cshort}", Hh.sp(e),
+                                 f"{short} calls {cshort} — which copies the members of a component it looks up into the list it is handed — from inside a loop: "
+                                 f"one copy per child multiplies along a chain of references (2^k members for k levels with two references each), so a small "
+                                 f"acyclic schema exhausts time and memory", fn=short)
+                else:
+                    ck.ok("R2", f"copy-fanout:{short}->{cshort}", Hh.sp(e), f"{cshort} is called once per component, outside every loop", fn=short)
+            if k in ("For", "Loop"):
+                loops = loops + [e]
+            elif k == "MethodCall" and e.get("name") in ("for_each", "try_for_each", "map", "filter_map", "flat_map", "fold", "try_fold"):
+                loops = loops + [e]
+            for key, v in e.items():
+                if isinstance(v, (dict, list)):
+                    visit(v, loops)
+        visit(nb["value"], [])
+    ck.floor("R2", "calls of by-value component copies judged", n, 1)
 
 
 def _ord(b, cyc):
